@@ -10,6 +10,6 @@ NoFail == [n \in Node |-> "none"]
 Empty == [n \in Node |-> {}]
 Disj == {p \in (SUBSET Node) \X (SUBSET Node) : p[1] \cap p[2] = {}}
 NoSelfGraphs == {x \in [Node -> SUBSET Node] : \A n \in Node : n \notin x[n]}
-Fam == {[single |-> g, selfOpt |-> AllFalse, slice |-> Empty, sliceOpt |-> AllFalse, lazy |-> lz, wrap |-> w, fail |-> fl, procs |-> <<>>, mode |-> [n \in Node |-> "normal"], rorder |-> <<>>] :
+Fam == {[single |-> g, selfOpt |-> AllFalse, slice |-> Empty, sliceOpt |-> AllFalse, lazy |-> lz, wrap |-> w, fail |-> fl, procs |-> <<>>, mode |-> [n \in Node |-> "normal"], rorder |-> <<>>, ilook |-> NoLook] :
           g \in [Node -> SUBSET Node], lz \in SUBSET Node, w \in [Node -> WrapMode], fl \in [Node -> FailMode]}
 =============================================================================
